@@ -7,12 +7,13 @@ history correspondence (Tie B): the same op lines run on the Lean driver and on 
 from vlib import histcheck
 
 MODULE = "TriompheModel.Props.C06"
+EXTRA = []
 TAGS = ['C06']
 WEIGHTS = {'create': 30, 'iter': 22, 'conv': 8, 'drop': 10, 'clone': 6}
 
 
 def run(ctx):
-    histcheck.run(ctx, MODULE, WEIGHTS, TAGS)
+    histcheck.run(ctx, MODULE, WEIGHTS, TAGS, lean_extra=EXTRA)
 
 
 def replay(ctx, path):
